@@ -26,7 +26,9 @@ THEOREMS = ["ESV.Beh.check_sound", "ESV.Beh.validate_sound", "ESV.C01.routine_va
             "ESV.C01Backend.jump_root_counterexample",
             # the front end produces well-formed labelled code, for all guarded programs (design_notes/C01_frontend.md)
             "ESV.C01Frontend.frontend_wfl", "ESV.C01Frontend.compile_backend_equiv",
-            "ESV.C01Frontend.duplicate_user_label_counterexample"]
+            "ESV.C01Frontend.duplicate_user_label_counterexample",
+            # code generator / whole compiler correct on fragment F0 (straight-line routines)
+            "ESV.C01Frontend.codegen_correct_F0", "ESV.C01Frontend.compile_correct_F0"]
 
 
 def table_mismatch(ast: dict, res: dict) -> str | None:
